@@ -113,7 +113,12 @@ pub fn judge(d: &Decl, c: &LineCase, reply: &Value) -> Result<Option<Expect>, (S
 
 /// `help_on = false`: the crate was built without the help feature, so no line is a help request
 pub fn judge_opts(d: &Decl, c: &LineCase, reply: &Value, help_on: bool) -> Result<Option<Expect>, (String, String)> {
-    let what = format!("declaration d{} line {:?}", d.id, c.line);
+    let what = format!(
+        "declaration d{} line {:?}{}",
+        d.id,
+        c.line,
+        ["", " (submitted once, recalled with Up, Enter again)", " (second half typed first, first half inserted in front of it)", " (a stray character typed and erased in the middle)"][reply["route"].as_u64().unwrap_or(0) as usize % 4]
+    );
     if let Some(p) = reply.get("panic").and_then(|p| p.as_str()) {
         return Err((format!("{}: no panic", what), p.to_string()));
     }
